@@ -1,4 +1,265 @@
-import HydroVerif.Model.C17
+/-
+C17 — property theorems (only).  Model: `HydroVerif/Model/C17.lean`; helper lemmas (inner loops in
+closed form, one-step equations, guards): `HydroVerif/Lemmas/C17.lean`.
+
+`α` is any commutative ring (ℚ, ℝ, ℤ, ...); `nf = fun _ => false` is `isnan` in exact arithmetic.
+The theorems named `kernel_*` hold for every order `p` (the length of the coefficient vector, no upper
+bound), every starting lag buffer and every series length; the others speak about `sim` / `residual`
+(the kernels behind their guards, orders 1..10) and about the Python wrappers' defaults.
+-/
+import HydroVerif.Lemmas.C17
+
 namespace HydroVerif.C17
-theorem stub : nparamsMax = 10 := rfl
+
+open Finset
+
+variable {α : Type} [CommRing α] {p : Nat}
+
+/-! ### unsupported orders and NaN parameters are rejected, everything else is accepted -/
+
+/-- both kernels accept exactly: order 1..10, no NaN coefficient, mean and initial value not NaN
+(whatever the series, whatever `isnan` does on computed values) -/
+theorem accepts_iff (nan : α → Bool) (params : List (Option α)) (mean ini : Option α)
+    (series : List (Option α)) :
+    ((∃ ys, sim nan params mean ini series = .ok ys) ↔
+      (1 ≤ params.length ∧ params.length ≤ 10 ∧ none ∉ params ∧ mean ≠ none ∧ ini ≠ none)) ∧
+    ((∃ rs, residual nan params mean ini series = .ok rs) ↔
+      (1 ≤ params.length ∧ params.length ≤ 10 ∧ none ∉ params ∧ mean ≠ none ∧ ini ≠ none)) := by
+  rw [← validate_isOk_iff]
+  constructor
+  · constructor
+    · rintro ⟨ys, h⟩
+      obtain ⟨ps, m, i, rfl, rfl, rfl, h1, h10, -⟩ := sim_eq_ok nan _ _ _ _ _ h
+      exact ⟨_, validate_ok ps m i h1 h10⟩
+    · rintro ⟨⟨ps, m, i⟩, h⟩
+      obtain ⟨rfl, rfl, rfl, h1, h10⟩ := validate_eq_ok _ _ _ _ _ _ h
+      exact ⟨_, sim_of_valid nan ps m i series h1 h10⟩
+  · constructor
+    · rintro ⟨rs, h⟩
+      obtain ⟨ps, m, i, rfl, rfl, rfl, h1, h10, -⟩ := residual_eq_ok nan _ _ _ _ _ h
+      exact ⟨_, validate_ok ps m i h1 h10⟩
+    · rintro ⟨⟨ps, m, i⟩, h⟩
+      obtain ⟨rfl, rfl, rfl, h1, h10⟩ := validate_eq_ok _ _ _ _ _ _ h
+      exact ⟨_, residual_of_valid nan ps m i series h1 h10⟩
+
+/-- order 0 or above 10: `badOrder`, from both kernels, before anything else is looked at -/
+theorem rejects_bad_order (nan : α → Bool) (params : List (Option α)) (mean ini : Option α)
+    (series : List (Option α)) (h : params.length = 0 ∨ 10 < params.length) :
+    sim nan params mean ini series = .error .badOrder ∧
+    residual nan params mean ini series = .error .badOrder := by
+  have := (validate_error params mean ini).1.mpr h
+  exact ⟨(sim_error_iff nan _ _ _ _ _).mpr this, (residual_error_iff nan _ _ _ _ _).mpr this⟩
+
+/-- a supported order with a NaN coefficient anywhere: `nanParam` -/
+theorem rejects_nan_param (nan : α → Bool) (params : List (Option α)) (mean ini : Option α)
+    (series : List (Option α)) (h1 : 1 ≤ params.length) (h10 : params.length ≤ 10) (h : none ∈ params) :
+    sim nan params mean ini series = .error .nanParam ∧
+    residual nan params mean ini series = .error .nanParam := by
+  have := (validate_error params mean ini).2.1.mpr ⟨h1, h10, h⟩
+  exact ⟨(sim_error_iff nan _ _ _ _ _).mpr this, (residual_error_iff nan _ _ _ _ _).mpr this⟩
+
+/-- NaN mean: `nanMean` -/
+theorem rejects_nan_mean (nan : α → Bool) (params : List (Option α)) (ini : Option α)
+    (series : List (Option α)) (h1 : 1 ≤ params.length) (h10 : params.length ≤ 10) (h : none ∉ params) :
+    sim nan params none ini series = .error .nanMean ∧
+    residual nan params none ini series = .error .nanMean := by
+  have := (validate_error params none ini).2.2.1.mpr ⟨h1, h10, h, rfl⟩
+  exact ⟨(sim_error_iff nan _ _ _ _ _).mpr this, (residual_error_iff nan _ _ _ _ _).mpr this⟩
+
+/-- NaN initial value: `nanIni` -/
+theorem rejects_nan_ini (nan : α → Bool) (params : List (Option α)) (m : α)
+    (series : List (Option α)) (h1 : 1 ≤ params.length) (h10 : params.length ≤ 10) (h : none ∉ params) :
+    sim nan params (some m) none series = .error .nanIni ∧
+    residual nan params (some m) none series = .error .nanIni := by
+  have := (validate_error params (some m) none).2.2.2.mpr ⟨h1, h10, h, by simp, rfl⟩
+  exact ⟨(sim_error_iff nan _ _ _ _ _).mpr this, (residual_error_iff nan _ _ _ _ _).mpr this⟩
+
+/-- one output per input, for both kernels (any `isnan`) -/
+theorem output_length (nan : α → Bool) (params : List (Option α)) (mean ini : Option α)
+    (series : List (Option α)) :
+    (∀ ys, sim nan params mean ini series = .ok ys → ys.length = series.length) ∧
+    (∀ rs, residual nan params mean ini series = .ok rs → rs.length = series.length) := by
+  constructor
+  · intro ys h
+    obtain ⟨ps, m, i, -, -, -, -, -, rfl⟩ := sim_eq_ok nan _ _ _ _ _ h
+    exact simRun_length' nan _ _ _ _
+  · intro rs h
+    obtain ⟨ps, m, i, -, -, -, -, -, rfl⟩ := residual_eq_ok nan _ _ _ _ _ h
+    exact resRun_length' nan _ _ _ _
+
+/-! ### the simulation kernel reproduces the AR recursion started from the initial value -/
+
+/-- for every order 1..10, coefficients `ps`, mean `m`, initial value `ini` and innovation series of any
+length with NaN anywhere: the call is accepted and every output satisfies
+`y[t] - m = Σ_k φ[k]·(y[t-(k+1)] - m) + e[t]`, with `y[-j] = ini` and a NaN `e[t]` read as 0 -/
+theorem sim_recursion (ps : List α) (m ini : α) (innov : List (Option α))
+    (h1 : 1 ≤ ps.length) (h10 : ps.length ≤ 10) :
+    ∃ ys, sim nf (ps.map some) (some m) (some ini) innov = .ok ys ∧
+      ∃ hlen : ys.length = innov.length,
+      ∀ (t : Nat) (ht : t < ys.length),
+        ys[t] - m = (∑ k : Fin ps.length, ps[k.val] * (past ys ini t k.val - m))
+                      + zeroNaN (innov[t]'(hlen ▸ ht)) := by
+  refine ⟨_, sim_of_valid nf ps m ini innov h1 h10, simRun_length _ _ _ _, ?_⟩
+  intro t ht
+  have hlen := simRun_length (toVec ps) m innov (Vector.replicate ps.length (ini - m))
+  have ht' : t < innov.length := hlen ▸ ht
+  rw [simRun_recursion (toVec ps) m innov _ t (innov[t]) _
+    (List.getElem?_eq_getElem ht') (List.getElem?_eq_getElem ht)]
+  congr 1
+  apply sum_congr rfl
+  intro k _
+  rw [glag_replicate _ ini m t k.val k.isLt (by omega), toVec_getElem]
+
+/-- the same recursion for every order `p` (no upper bound) and every starting lag buffer: at step `t`
+the lag-`k+1` term is an earlier output minus the mean, or what the starting buffer held -/
+theorem kernel_sim_recursion (ps : Vector α p) (m : α) (buf : Vector α p) (es : List (Option α))
+    (t : Nat) (e : Option α) (y : α)
+    (he : es[t]? = some e) (hy : (simRun nf ps m buf es)[t]? = some y) :
+    y - m = (∑ k : Fin p, ps[k.val] * glag (simRun nf ps m buf es) buf m t k.val k.isLt) + zeroNaN e :=
+  simRun_recursion ps m es buf t e y he hy
+
+/-- the lag buffer of the simulation kernel holds the centred past outputs, most recent first
+(initially `ini - m` at every lag) -/
+theorem kernel_buffer_holds_centred_past (ps : Vector α p) (m : α) (buf : Vector α p)
+    (es : List (Option α)) (k : Nat) (hk : k < p) :
+    (simBuf nf ps buf es)[k] = glag (simRun nf ps m buf es) buf m es.length k hk :=
+  simBuf_content ps m es buf k hk
+
+/-- a NaN innovation acts as a zero innovation — literally the same run (any `isnan`, so also at `Float`) -/
+theorem nan_innovation_is_zero (nan : α → Bool) (params : List (Option α)) (mean ini : Option α)
+    (innov : List (Option α)) :
+    sim nan params mean ini (innov.map fun e => some (zeroNaN e)) = sim nan params mean ini innov := by
+  unfold sim
+  cases validate params mean ini with
+  | error e => rfl
+  | ok r => obtain ⟨ps, m, i⟩ := r; simp only [simRun_zeroed]
+
+/-! ### both kernels hold the same lag buffer at every step; hence they are inverses -/
+
+/-- invariant, every order, every series length, every prefix: after `n` steps the residual kernel run
+on the simulated series holds exactly the buffer the simulation kernel holds -/
+theorem kernel_same_buffer_every_step (ps : Vector α p) (m : α) (buf : Vector α p)
+    (es : List (Option α)) (n : Nat) :
+    resBuf nf ps m buf (((simRun nf ps m buf es).map some).take n) = simBuf nf ps buf (es.take n) :=
+  resBuf_simRun ps m es buf n
+
+/-- the same invariant in the other direction (inputs with NaN anywhere) -/
+theorem kernel_same_buffer_every_step' (ps : Vector α p) (m : α) (buf : Vector α p)
+    (xs : List (Option α)) (n : Nat) :
+    simBuf nf ps buf (((resRun nf ps m buf xs).map some).take n) = resBuf nf ps m buf (xs.take n) :=
+  simBuf_resRun ps m xs buf n
+
+/-- `residual (sim e) = e` with NaN ↦ 0, every order `p`, every starting buffer, every length -/
+theorem kernel_residual_sim (ps : Vector α p) (m : α) (buf : Vector α p) (es : List (Option α)) :
+    resRun nf ps m buf ((simRun nf ps m buf es).map some) = es.map zeroNaN :=
+  resRun_simRun ps m es buf
+
+/-- `sim (residual y) = y` for NaN-free `y`, every order `p`, every starting buffer, every length -/
+theorem kernel_sim_residual (ps : Vector α p) (m : α) (buf : Vector α p) (ys : List α) :
+    simRun nf ps m buf ((resRun nf ps m buf (ys.map some)).map some) = ys := by
+  rw [simRun_resRun, fill_present]
+
+/-- `residual (sim e) = e` with NaN ↦ 0 through the guards: whenever the simulation is accepted, the
+residuals of its output (same coefficients, mean, initial value) are the innovations -/
+theorem residual_sim (params : List (Option α)) (mean ini : Option α) (innov : List (Option α))
+    (ys : List α) (h : sim nf params mean ini innov = .ok ys) :
+    residual nf params mean ini (ys.map some) = .ok (innov.map zeroNaN) := by
+  obtain ⟨ps, m, i, rfl, rfl, rfl, h1, h10, rfl⟩ := sim_eq_ok nf _ _ _ _ _ h
+  rw [residual_of_valid nf ps m i _ h1 h10, resRun_simRun]
+
+/-- `sim (residual y) = y` for NaN-free `y` through the guards -/
+theorem sim_residual (params : List (Option α)) (mean ini : Option α) (ys : List α)
+    (rs : List α) (h : residual nf params mean ini (ys.map some) = .ok rs) :
+    sim nf params mean ini (rs.map some) = .ok ys := by
+  obtain ⟨ps, m, i, rfl, rfl, rfl, h1, h10, rfl⟩ := residual_eq_ok nf _ _ _ _ _ h
+  rw [sim_of_valid nf ps m i _ h1 h10, simRun_resRun, fill_present]
+
+/-- with NaN in `y`: simulating the residuals gives back `y` at every position where `y` is present -/
+theorem sim_residual_present (params : List (Option α)) (mean ini : Option α)
+    (xs : List (Option α)) (rs : List α) (h : residual nf params mean ini xs = .ok rs) :
+    ∃ zs, sim nf params mean ini (rs.map some) = .ok zs ∧ zs.length = xs.length ∧
+      ∀ (t : Nat) (y : α), xs[t]? = some (some y) → zs[t]? = some y := by
+  obtain ⟨ps, m, i, rfl, rfl, rfl, h1, h10, rfl⟩ := residual_eq_ok nf _ _ _ _ _ h
+  refine ⟨_, sim_of_valid nf ps m i _ h1 h10, ?_, ?_⟩
+  · rw [simRun_resRun, fill_length]
+  · intro t y hx
+    rw [simRun_resRun]
+    exact fill_at_present _ _ _ _ t y hx
+
+/-- missing inputs give zero residuals -/
+theorem residual_zero_at_missing (params : List (Option α)) (mean ini : Option α)
+    (xs : List (Option α)) (rs : List α) (h : residual nf params mean ini xs = .ok rs)
+    (t : Nat) (ht : xs[t]? = some none) : rs[t]? = some 0 := by
+  obtain ⟨ps, m, i, rfl, rfl, rfl, h1, h10, rfl⟩ := residual_eq_ok nf _ _ _ _ _ h
+  exact resRun_at_missing _ _ _ _ t ht
+
+/-! ### the Python wrappers: what the defaults stand for, and the inverse through them -/
+
+/-- `armodel_sim(params, innov)` is `sim_mean = 0, sim_ini = 0`; `armodel_sim(params, innov, m)` starts
+from `sim_ini = m`; `armodel_residual(params, y)` uses `nanmean(y)` for both (any `isnan`) -/
+theorem wrapper_defaults (nan : α → Bool) (params : List (Option α)) (series : List (Option α))
+    (m i μ : Option α) :
+    pySim nan params series none none = sim nan params (some 0) (some 0) series ∧
+    pySim nan params series (some m) none = sim nan params m m series ∧
+    pySim nan params series none (some i) = sim nan params (some 0) i series ∧
+    pySim nan params series (some m) (some i) = sim nan params m i series ∧
+    pyResidual nan params series μ none none = residual nan params μ μ series ∧
+    pyResidual nan params series μ (some m) none = residual nan params m m series ∧
+    pyResidual nan params series μ none (some i) = residual nan params μ i series ∧
+    pyResidual nan params series μ (some m) (some i) = residual nan params m i series :=
+  ⟨rfl, rfl, rfl, rfl, rfl, rfl, rfl, rfl⟩
+
+/-- the inverse through the wrappers, same `sim_mean` / `sim_ini` arguments on both calls (each left at
+its default or passed explicitly).  Hypothesis `hm`: the mean is passed explicitly, or the data mean the
+residual wrapper falls back to is the 0 the simulation wrapper falls back to — see
+`wrapper_defaults_not_inverse` for why it cannot be dropped. -/
+theorem wrapper_residual_sim (params : List (Option α)) (innov : List (Option α))
+    (meanArg iniArg : Option (Option α)) (μ : Option α) (ys : List α)
+    (hm : meanArg ≠ none ∨ μ = some 0)
+    (h : pySim nf params innov meanArg iniArg = .ok ys) :
+    pyResidual nf params (ys.map some) μ meanArg iniArg = .ok (innov.map zeroNaN) := by
+  cases meanArg with
+  | some m => cases iniArg <;> exact residual_sim _ _ _ _ _ h
+  | none =>
+    have hμ : μ = some 0 := by simpa using hm
+    subst hμ
+    cases iniArg <;> exact residual_sim _ _ _ _ _ h
+
+theorem wrapper_sim_residual (params : List (Option α)) (ys : List α)
+    (meanArg iniArg : Option (Option α)) (μ : Option α) (rs : List α)
+    (hm : meanArg ≠ none ∨ μ = some 0)
+    (h : pyResidual nf params (ys.map some) μ meanArg iniArg = .ok rs) :
+    pySim nf params (rs.map some) meanArg iniArg = .ok ys := by
+  cases meanArg with
+  | some m => cases iniArg <;> exact sim_residual _ _ _ _ _ h
+  | none =>
+    have hμ : μ = some 0 := by simpa using hm
+    subst hμ
+    cases iniArg <;> exact sim_residual _ _ _ _ _ h
+
+/-- with `sim_mean` left at its default on both calls the wrappers are NOT inverses: the simulation
+centres on 0, the residual on the mean of its input (order 1, φ = 1, one innovation equal to 1:
+the simulated series is `[1]`, its data mean is 1, the residual comes back as 0) -/
+theorem wrapper_defaults_not_inverse :
+    pySim nf [some (1 : ℤ)] [some 1] none none = .ok [1] ∧
+    pyResidual nf [some (1 : ℤ)] [some 1] (some 1) none none = .ok [0] := by
+  constructor <;> rfl
+
+/-! ### non-vacuity: the hypotheses are met by concrete non-trivial inputs, sample evaluations -/
+
+example : sim nf [some (2 : ℤ), some (-1)] (some 5) (some 10) [some 1, none, some 2, some (-1)]
+    = .ok [11, 12, 15, 17] := by rfl
+example : residual nf [some (2 : ℤ), some (-1)] (some 5) (some 10) [some 11, some 12, some 15, some 17]
+    = .ok [1, 0, 2, -1] := by rfl
+example : residual nf [some (2 : ℤ), some (-1)] (some 5) (some 10) [some 11, none, some 10, none]
+    = .ok [1, 0, -3, 0] := by rfl
+example : (1 : Nat) ≤ [some (2 : ℤ), some (-1)].length ∧ [some (2 : ℤ), some (-1)].length ≤ 10 := by decide
+example : sim nf ([] : List (Option ℤ)) (some 0) (some 0) [some 1] = .error .badOrder := by rfl
+example : sim nf [some (1 : ℤ), none] (some 0) (some 0) [some 1] = .error .nanParam := by rfl
+example : past [11, 12, 15, (17 : ℤ)] 10 2 0 = 12 ∧ past [11, 12, 15, (17 : ℤ)] 10 2 1 = 11
+    ∧ past [11, 12, 15, (17 : ℤ)] 10 2 2 = 10 := by decide
+/-- `hm` of `wrapper_residual_sim` is satisfiable both ways -/
+example : ((some (some (5 : ℤ)) : Option (Option ℤ)) ≠ none ∨ (none : Option ℤ) = some 0) := by simp
+example : ((none : Option (Option ℤ)) ≠ none ∨ (some (0 : ℤ)) = some 0) := by simp
+
 end HydroVerif.C17
